@@ -80,7 +80,7 @@ async def _consume(rec, agen):
     return outcome
 
 
-def impl_walk(spec, roots, kind="getnext", size=10, lenient=False, version="v2c", level="noauth", budget=None):
+def impl_walk(spec, roots, kind="getnext", size=10, lenient=False, version="v2c", level="noauth", budget=None, hook=None):
     """Run the real walk. spec: {"db": [...]} | {"table": {...}} (+ "policy")."""
     table = None
     if "table" in spec:
@@ -94,6 +94,7 @@ def impl_walk(spec, roots, kind="getnext", size=10, lenient=False, version="v2c"
         table=table,
         bulk_policy={"rows": pol.get("rows"), "cut": pol.get("cut", 0), "stop_after_eom_row": pol.get("stop", True)},
         budget=budget,
+        hook=hook,
     )
     client = make_client(agent, version, level)
     rec = Recorder(agent)
@@ -109,9 +110,12 @@ def impl_walk(spec, roots, kind="getnext", size=10, lenient=False, version="v2c"
     return {"events": rec.events, "outcome": outcome}, agent
 
 
-def model_request(spec, roots, kind="getnext", size=10, lenient=False, fuel=64):
+def model_request(spec, roots, kind="getnext", size=10, lenient=False, fuel=64, fault=None):
     agent = {k: spec[k] for k in ("db", "table", "policy") if k in spec}
-    return {"op": "walk.run", "agent": agent, "roots": roots, "kind": kind, "size": size, "lenient": lenient, "fuel": fuel}
+    req = {"op": "walk.run", "agent": agent, "roots": roots, "kind": kind, "size": size, "lenient": lenient, "fuel": fuel}
+    if fault:
+        req["fault"] = fault
+    return req
 
 
 def canon_model_walk(ans):
